@@ -20,8 +20,8 @@ package cache
 
 //@ field EntryMetadata.LastAccess guarded_by shard
 //@ field EntryMetadata.Expires guarded_by shard
-//@ field EntryMetadata.Size guarded_by shard
-//@ field EntryMetadata.TimeWritten guarded_by shard
+//@ field EntryMetadata.Size guarded_by immutable
+//@ field EntryMetadata.TimeWritten guarded_by immutable
 //@ field MemoryCache.memoryCap guarded_by mu
 //@ field map_map_cache.CacheKey guarded_by mu
 
